@@ -26,6 +26,14 @@ MAGIC = 0x11223344
 WRAP_FLAGS = ["-Wl," + ",".join("--wrap=" + f for f in (
     "__ckd_calloc__", "__ckd_malloc__", "__ckd_realloc__", "__ckd_salloc__", "__ckd_calloc_2d__", "__ckd_calloc_3d__",
     "__ckd_calloc_4d__", "__ckd_alloc_3d_ptr", "__ckd_alloc_2d_ptr", "ckd_free", "ckd_free_2d", "ckd_free_3d", "ckd_free_4d"))]
+# mapping ledger of mmio.c: every munmap must release exactly the pages of a live mapping (harness/h_c17.c)
+WRAP_FLAGS = WRAP_FLAGS + ["-Wl,--wrap=mmap,--wrap=munmap"]
+# documented configuration flags that reach a model-file reader or the assembly of the acoustic model
+# (include/soundswallower/config_defs.h): the fault enumeration is crossed with them (stage B), and the one flag that
+# is an argument of a reader (`cionly` of bin_mdef_read_s3file) also at reader level (stage A, target `mdefc`)
+CONFIGS = ["cionly=yes", "topn=2", "ds=2", "compallsen=yes", "mmap=no", "cionly=yes,topn=1,ds=3", "topn=1,compallsen=yes",
+           "cionly=yes,mmap=no"]
+PAGE = 4096
 VALS = lambda x: sorted({0, 1, (x + 1) & 0xffffffff, (x - 1) & 0xffffffff, 0x7fffffff, 0x80000000, 0xffffffff,
                          bswap(x)} - {x})
 
@@ -573,6 +581,9 @@ LEDGER_NAMES = {
 }
 
 
+LEDGER_NAMES["mdefc"] = LEDGER_NAMES["mdef"]
+
+
 def judge_ledger(meta, cl, ml):
     """None when there is nothing to compare or the real trace equals the ledger of the stage the model reaches"""
     mm = re.search(r" ledger=(\S*)", ml)
@@ -603,6 +614,9 @@ def judge_a(case, cl, ml):
     if sig:
         return False, {"why": "implementation: " + sig, "impl": cl[:900], "model": mcore, "impl_violates": True,
                        "sig": sig}
+    if d.get("mmbad"):
+        return False, {"why": "munmap does not release exactly a live mapping (mapped/unmapped/known): " + d["mmbad"],
+                       "impl": cl[:900], "model": mcore, "impl_violates": True, "sig": "munmap-mismatch"}
     if mcore.startswith("OOB") or mcore.startswith("IDX") or " OOB" in mcore or " IDX" in mcore:
         return False, {"why": "model reached oob/idx (theorem says impossible)", "impl": ccore, "model": mcore,
                        "impl_violates": False}
@@ -658,6 +672,68 @@ def gen_stage_a_more(c, A, tier, stats):
             for chk in (True, False):
                 s, t = syn_tmat(rng, swap, chk, "plain", topo=topo)
                 A.add(t, [(hx(bytes(s.b)), "-")], {"target": "tmat", "file": "syn-tmat", "kind": "topology"})
+
+
+def gen_stage_a_flags(c, A, tier, stats, model_dirs):
+    """the reader that takes a configuration flag as an argument, under both values of the flag (family `mdefc`):
+    synthetic mdefs (both byte orders, homogeneous / heterogeneous, at least one cd_tree node) x every truncation
+    length x every count field x VALS under cionly=1, the tree region and the tree count again under cionly=0;
+    the bundled mdefs under cionly=1 with cuts inside every region (most inside the cd_tree) and corrupted counts.
+    Own random stream: the cases drawn from c.rng stay the same."""
+    rng = vlib.Rng(c.seed * 7919 + 29)
+    dist = {"syn_files": 0, "cionly=1": 0, "cionly=0": 0, "cut_in_tree": 0, "n_cd_tree_field": 0, "bundled": 0}
+    for v in range(1 if tier == "quick" else 6):
+        for swap in (False, True):
+            for het in (False, True):
+                for _ in range(30):
+                    s, _t = syn_mdef(rng, swap, het)
+                    b = bytes(s.b)
+                    if getattr(s, "valid", True) and struct.unpack_from(">I" if swap else "<I", b, s.fields["n_cd_tree"])[0] >= 1:
+                        break
+                tree0, tree1 = s.hdr_end, s.regions["phone"]
+                dist["syn_files"] += 1
+                for ci in ("1", "0"):
+                    meta = {"target": "mdefc", "file": "syn-mdefc", "cionly": ci}
+                    A.add(("mdefc", ci), [(hx(b), "-")], dict(meta, kind="intact" if getattr(s, "valid", True) else "invalid"))
+                    for t in range(len(b)):
+                        if ci == "1" or tree0 - 4 <= t <= tree1 + 4:
+                            A.add(("mdefc", ci), [(hx(b), f"t{t}")], dict(meta, kind="trunc", must_reject=True))
+                            dist["cionly=" + ci] += 1
+                            dist["cut_in_tree"] += tree0 <= t < tree1
+                    for fname, off in s.fields.items():
+                        if ci == "1" or fname in ("n_cd_tree", "n_phone", "n_ciphone"):
+                            x = struct.unpack_from("<I", b, off)[0]
+                            for val in VALS(x) + ([(x + 0x01000000) & 0xffffffff, (x + 3000000) & 0xffffffff] if fname == "n_cd_tree" else []):
+                                A.add(("mdefc", ci), [(hx(b), f"w{off}:{val:x}")], dict(meta, kind="field", field=fname))
+                                dist["cionly=" + ci] += 1
+                                dist["n_cd_tree_field"] += fname == "n_cd_tree"
+    for tag, md in model_dirs:
+        pth = md / "mdef"
+        if not pth.exists():
+            continue
+        b = pth.read_bytes()
+        L = layout("mdef", b)
+        tree0 = L["hdr_end"]
+        phone0 = tree0 + 8 * L["vals"]["n_cd_tree"]
+        path = "@" + str(pth)
+        meta = {"target": "mdefc", "file": f"{tag}/mdefc", "cionly": "1"}
+        A.add(("mdefc", "1"), [(path, "-")], dict(meta, kind="intact"))
+        ts = {tree0, tree0 + 1, tree0 + 8, (tree0 + phone0) // 2, phone0 - 8, phone0 - 1, phone0, phone0 + 1, len(b) - 1}
+        ts |= {tree0 + rng.below(max(1, phone0 - tree0)) for _ in range(6 if tier == "quick" else 60)}
+        ts |= {rng.below(len(b)) for _ in range(3 if tier == "quick" else 30)}
+        ts |= {k * PAGE + d for k in {1, max(1, len(b) // PAGE), rng.range(1, max(1, len(b) // PAGE))} for d in (-1, 0, 1)}
+        for t in sorted(x for x in ts if 0 <= x < len(b)):
+            A.add(("mdefc", "1"), [(path, f"t{t}")], dict(meta, kind="trunc", must_reject=True))
+            dist["bundled"] += 1
+            dist["cut_in_tree"] += tree0 <= t < phone0
+        for fname in ("n_cd_tree", "n_phone", "n_sseq", "sseq_size"):
+            off = L["fields"][fname]
+            x = struct.unpack_from("<I", b, off)[0]
+            for val in VALS(x) + ([(x + 3000000) & 0xffffffff] if fname == "n_cd_tree" else []):
+                A.add(("mdefc", "1"), [(path, f"w{off}:{val:x}")], dict(meta, kind="field", field=fname))
+                dist["bundled"] += 1
+                dist["n_cd_tree_field"] += fname == "n_cd_tree"
+    stats["flag_family_stageA"] = dist
 
 
 def gen_stage_a(c, A, tier, stats):
@@ -896,6 +972,92 @@ def gen_stage_b(c, tier, model_dir, tag, stats):
     return faults
 
 
+def gen_stage_b_flags(c, tier, model_dir, tag, stats, faults):
+    """stage-B faults added for the configuration dimension and the mapping ledger (own random stream):
+    * every mdef fault of the base enumeration again under cionly=yes (both paths);
+    * a sample of the faults of every other file under one configuration of CONFIGS each (round robin), and the
+      intact model under every configuration;
+    * mmap path: truncation lengths k*PAGE-1, k*PAGE, k*PAGE+1 (k = 1, a random k, the last whole page) of every
+      binary file, and the file padded with zero bytes up to the next page boundary (`p<len>`: a file of whole pages
+      that several readers accept), under the default configuration and under one of CONFIGS."""
+    rng = vlib.Rng(c.seed * 7919 + 31)
+    out, dist = [], {"by_config": {}, "page_multiple_lengths": 0, "page_multiple_pm1": 0, "padded_to_page": 0}
+
+    def add(mode, fn, ed, meta, cfg):
+        m = dict(meta)
+        if cfg:
+            m["cfg"] = cfg
+        out.append((mode, fn, ed, m))
+        dist["by_config"][cfg or "-"] = dist["by_config"].get(cfg or "-", 0) + 1
+    k = 0
+    for mode, fn, ed, meta in faults:
+        if meta["kind"] in ("intact",):
+            continue
+        if fn == "mdef":
+            add(mode, fn, ed, meta, "cionly=yes")
+        elif rng.chance(0.25 if tier == "quick" else 1.0):
+            add(mode, fn, ed, meta, CONFIGS[k % len(CONFIGS)])
+            k += 1
+    for cfg in CONFIGS:
+        for mode in ("mmap", "mem"):
+            add(mode, "means", "-", {"kind": "intact"}, cfg)
+    for fn in ("mdef", "means", "variances", "sendump", "transition_matrices"):
+        pth = model_dir / fn
+        if not pth.exists():
+            continue
+        n = pth.stat().st_size
+        kmax = n // PAGE
+        ks = sorted({1, kmax, rng.range(1, max(1, kmax))} - {0})
+        for kk in ks:
+            for d in (-1, 0, 1):
+                t = kk * PAGE + d
+                if 0 < t < n:
+                    for cfg in (None, CONFIGS[k % len(CONFIGS)]):
+                        add("mmap", fn, f"t{t}", {"kind": "trunc"}, cfg)
+                    k += 1
+                    dist["page_multiple_lengths" if d == 0 else "page_multiple_pm1"] += 1
+        pad = (n // PAGE + 1) * PAGE
+        # not judged for accept/reject (no plan expectation for a longer file): cleanliness + mapping ledger
+        add("mmap", fn, f"p{pad}", {"kind": "other"}, None)
+        add("mmap", fn, f"p{pad}", {"kind": "other"}, "cionly=yes")
+        dist["padded_to_page"] += 2
+    stats.setdefault("flag_family_stageB", {})[tag] = dist
+    return out
+
+
+def judge_maps(res, model_lens):
+    """mapping ledger over all stage-B children: (violations [(index, text)], pairs compared, live mappings left)"""
+    bad, n, live = [], 0, 0
+    for i, d in res.items():
+        if d.get("mmbad"):
+            continue        # judged per fault
+        if d.get("mmlive", "0") != "0":
+            live += 1
+        page = int(d.get("page", PAGE))
+        for pr in (d.get("mm", "-").split(",") if d.get("mm", "-") != "-" else []):
+            a, b = (int(x) for x in pr.split(":"))
+            n += 1
+            if model_lens.get((a, page)) != b:
+                bad.append((i, f"file of {a} bytes mapped, munmap given {b}, model mapLen = {model_lens.get((a, page))}"))
+    return bad, n, live
+
+
+def model_maplens(sizes):
+    """mapLen of Model/ReadFlags.lean for every (size, page) seen: {(size, page): unmapped length}"""
+    qs = sorted(sizes)
+    if not qs:
+        return {}
+    rc, out, err = vlib.run_driver("c17", "".join(f"m{i} maplen {a} {p}\n" for i, (a, p) in enumerate(qs)), timeout=600)
+    res = {}
+    for l in out.split("\n"):
+        w = l.split()
+        if len(w) == 5 and w[0][1:].isdigit():
+            a, p = qs[int(w[0][1:])]
+            if int(w[1]) == a and w[3] == w[4]:       # pages unmapped = pages mapped (C17_unmap_is_map), evaluated
+                res[(a, p)] = int(w[2])
+    return res
+
+
 def meta_of_edit(model_dir, fn, ed):
     """fault class of a (file, edit) pair given literally (corpus, replay)"""
     if ed == "-":
@@ -1032,7 +1194,7 @@ def run_stage_b(c, binp, tag, env, faults, nw):
         W.mkdir()
         for f in P.iterdir():
             os.symlink(f, W / f.name)
-        text = "".join(f"{i} {m} {fn} {e}\n" for i, (m, fn, e, _) in chunk)
+        text = "".join(f"{i} {m} {fn} {e}" + (f" {mt['cfg']}" if mt.get("cfg") else "") + "\n" for i, (m, fn, e, mt) in chunk)
         rc, out, err = vlib.run_bin(binp, ["dec", P, W, small, "-", jsgf, raw], stdin_text=text, leaks=True, timeout=6000)
         shutil.rmtree(W, ignore_errors=True)
         return out
@@ -1053,11 +1215,18 @@ def judge_b(fault, d, exp):
     """None if fine, else (signature, detail)"""
     if d is None:
         return "died", "no output line"
+    if d.get("mmbad"):
+        return "munmap-mismatch", ("munmap does not release exactly the pages of a live mapping: mapped/unmapped/known = "
+                                   + d["mmbad"] + "; end=" + d.get("end", "?"))
     sig = signature(d)
     if sig:
         return sig, d.get("diag", "-")[:600]
     if d.get("intact") != "acc":
         return "intact-fails", "the intact model did not load after the damaged one"
+    if d.get("cfgbad", "0") != "0":
+        return "harness-config", f"configuration {d.get('cfg')} was not accepted by config_set_str"
+    if d.get("mmlive", "0") != "0":
+        return "mapping-leak", f"{d.get('mmlive')} file mappings still live after decoder_free"
     got = d.get("fault")
     if got == "acc" and d.get("use") != "ok":
         return "accepted-unusable", f"use={d.get('use')}"
@@ -1150,6 +1319,16 @@ def check(c):
     for tag in models:
         envs[tag] = prepare_model(c, tag)
         infos[tag] = gen_stage_a_real(c, A, c.tier, stats, vlib.REPO / "model" / tag, tag)
+    # corpus of the flag family first, then the family (cases appended after the base enumeration: ids of the base
+    # cases do not move)
+    for f in sorted((vlib.ROOT / "corpus" / "C17").glob("flags-*.txt")):
+        for l in f.read_text().split("\n"):
+            w = l.split()
+            if len(w) >= 3 and not l.startswith("#"):
+                cid = f"a{A.n}"; A.n += 1
+                A.cases.append((cid, " ".join([cid] + w[1:]).replace("$REPO", str(vlib.REPO)),
+                                {"target": w[1], "file": "corpus", "kind": "corpus"}))
+    gen_stage_a_flags(c, A, c.tier, stats, [(tag, vlib.REPO / "model" / tag) for tag in models])
     cres, mres = A.run(nw)
     a_ok, a_bad, sites, a_kinds, model_sites, ledger_stages = 0, 0, {}, {}, {}, {}
     plan_accepts = {tag: {} for tag in models}
@@ -1224,11 +1403,20 @@ def check(c):
              f"({sum(ledger_stages.values())} traces compared)", not miss, {"stages never compared": miss})
     # ---- stage B
     b_total, b_kinds, b_sites, b_out = 0, {}, {}, {}
+    b_cfgs = {}
+    mm_stats = {"pairs": 0, "distinct_sizes": 0, "page_multiple_sizes": 0, "bad": [], "children_with_maps": 0}
     for tag in models:
         plan_accepts[tag]["__am__"] = model_assembly(c, tag, vlib.REPO / "model" / tag,
                                                      {k: v for k, v in plan_accepts[tag].items() if isinstance(k, tuple) and len(k) == 2 and k[0] != "mdef-core"})
         stats.setdefault("assembly_queries", {})[tag] = len(plan_accepts[tag]["__am__"])
         faults = gen_stage_b(c, c.tier, envs[tag][0], tag, stats)
+        faults += gen_stage_b_flags(c, c.tier, envs[tag][0], tag, stats, faults)
+        corpf = vlib.ROOT / "corpus" / "C17" / f"decflags-{tag}.txt"
+        if corpf.exists():
+            for l in corpf.read_text().split("\n"):
+                w = l.split()
+                if len(w) == 4 and not l.startswith("#"):
+                    faults.insert(0, (w[0], w[1], w[2], dict(meta_of_edit(envs[tag][0], w[1], w[2]), **({"cfg": w[3]} if w[3] != "-" else {}))))
         corp = vlib.ROOT / "corpus" / "C17" / f"dec-{tag}.txt"
         if corp.exists():
             for l in corp.read_text().split("\n"):
@@ -1236,6 +1424,22 @@ def check(c):
                 if len(w) == 3 and not l.startswith("#"):
                     faults.insert(0, (w[0], w[1], w[2], meta_of_edit(envs[tag][0], w[1], w[2])))
         res = run_stage_b(c, binp, tag, envs[tag], faults, nw)
+        # mapping ledger: every (mapped, unmapped) pair of every child against mapLen of the model
+        sizes = set()
+        for d in res.values():
+            if d.get("mm", "-") != "-":
+                sizes |= {(int(pr.split(":")[0]), int(d.get("page", PAGE))) for pr in d["mm"].split(",")}
+        mlens = model_maplens(sizes)
+        mbad, mpairs, mlive = judge_maps(res, mlens)
+        pm = sum(1 for a, pg in sizes if a % pg == 0)
+        mm_stats["pairs"] += mpairs; mm_stats["distinct_sizes"] += len(sizes); mm_stats["page_multiple_sizes"] += pm
+        mm_stats["bad"] += [x[1] for x in mbad[:5]]
+        mm_stats["children_with_maps"] += sum(1 for d in res.values() if d.get("mmaps", "0") != "0")
+        for i, txt in mbad[:3]:
+            mode, fn, ed, meta = faults[i]
+            add_violation("B", fn, meta["kind"], "maplen-differs",
+                          {"stage": "B (mapping ledger)", "model": tag, "fault": {"path": mode, "file": fn, "edits": ed, "cfg": meta.get("cfg")},
+                           "observed": (res.get(i) or {}).get("_line"), "why": txt}, found=False)
         for i, fault in enumerate(faults):
             mode, fn, ed, meta = fault
             d = res.get(i)
@@ -1244,17 +1448,29 @@ def check(c):
             b_total += 1
             kk = f"{fn}/{meta['kind']}/{mode}"
             b_kinds[kk] = b_kinds.get(kk, 0) + 1
+            b_cfgs[meta.get("cfg", "-")] = b_cfgs.get(meta.get("cfg", "-"), 0) + 1
             if d:
                 b_out[d.get("fault", "died")] = b_out.get(d.get("fault", "died"), 0) + 1
                 b_sites[d.get("site", "-")] = b_sites.get(d.get("site", "-"), 0) + 1
             if bad:
                 add_violation("B", fn, meta["kind"] if meta["kind"] != "magic" else "field", bad[0],
                               {"stage": "B (decoder_init with a damaged model directory)", "model": tag,
-                               "fault": {"path": mode, "file": fn, "edits": ed, "field": meta.get("field")},
+                               "fault": {"path": mode, "file": fn, "edits": ed, "field": meta.get("field"),
+                                         **({"cfg": meta["cfg"]} if meta.get("cfg") else {})},
                                "observed": (d or {}).get("_line"), "expected": exp, "why": f"{bad[0]}: {bad[1]}"})
     nb = sum(len(v) for k, v in groups.items() if k.startswith("B:") and not pending_match(k, pend))
     c.oblige(f"stage B: {b_total} single faults over {models}: rejected (or benign, as predicted) without exit/abort/sanitizer report/leak, intact model loads afterwards",
              nb == 0, f"{nb} faults violate")
+    c.oblige(f"mapping ledger: every munmap of the implementation names a live mapping and is given mapLen(file size) of the model "
+             f"({mm_stats['pairs']} releases in {mm_stats['children_with_maps']} children, {mm_stats['distinct_sizes']} distinct file sizes, "
+             f"{mm_stats['page_multiple_sizes']} of them whole pages)",
+             not mm_stats["bad"] and mm_stats["pairs"] > 0 and mm_stats["page_multiple_sizes"] > 0, mm_stats["bad"])
+    fa = stats.get("flag_family_stageA", {})
+    c.oblige(f"configuration family: the reader with a flag argument was run under both values ({fa.get('cionly=1', 0)} faults with cionly=1, "
+             f"{fa.get('cionly=0', 0)} with cionly=0, {fa.get('cut_in_tree', 0)} cuts inside a cd_tree, {fa.get('n_cd_tree_field', 0)} corrupted tree counts); "
+             f"stage B under {len(b_cfgs) - 1} non-default configurations",
+             fa.get("cionly=1", 0) > 0 and fa.get("cut_in_tree", 0) > 0 and fa.get("n_cd_tree_field", 0) > 0 and len(b_cfgs) > len(CONFIGS),
+             {"stageB_by_config": b_cfgs})
     report(c, groups)
     distinct = len({l.split(" ", 1)[1] for _, l, _ in A.cases}) + b_total
     c.cov.update({"evaluations": len(A.cases) + b_total, "distinct_nontrivial": distinct,
@@ -1267,6 +1483,8 @@ def check(c):
                   "stageB_outcomes": b_out, "stageB_reject_sites": dict(sorted(b_sites.items(), key=lambda x: -x[1])[:50]),
                   "bundled_files_bytes": stats["b_files"], "assembly_cases_by_kind": stats.get("am_kinds"),
                   "stageB_expectations_from_assembly_model": stats.get("assembly_queries"), "models": models, "workers": nw,
+                  "flag_family_stageA": stats.get("flag_family_stageA"), "flag_family_stageB": stats.get("flag_family_stageB"),
+                  "stageB_by_config": b_cfgs, "mapping_ledger": {k: v for k, v in mm_stats.items() if k != "bad"},
                   "violation_classes": sorted(groups), "wall_enumeration_s": round(time.time() - t_start, 1)})
     for cid, line, meta in A.cases[:3]:
         c.samples.append({"stageA": line[:200], "impl": (cres.get(cid) or "")[:200], "model": (mres.get(cid) or "")[:200]})
@@ -1293,7 +1511,8 @@ def replay(c, path):
         tag = obj["model"]
         env = prepare_model(c, tag)
         f = obj["fault"]
-        fault = (f["path"], f["file"], f["edits"], meta_of_edit(env[0], f["file"], f["edits"]))
+        fault = (f["path"], f["file"], f["edits"], dict(meta_of_edit(env[0], f["file"], f["edits"]),
+                                                         **({"cfg": f["cfg"]} if f.get("cfg") else {})))
         res = run_stage_b(c, binp, tag, env, [fault], 1)
         bad = judge_b(fault, res.get(0), obj.get("expected") or expected_b(fault, {}, env[0]))
         c.oblige("replayed stage-B fault is handled cleanly", bad is None, bad)
